@@ -95,6 +95,7 @@ def get_repo():
     canon.desugar_entry(data0)
     canon.desugar_filter_loops(data0)
     canon.desugar_match_letelse(data0)
+    canon.merge_bool_arms(data0)
     canon.expand_self(data0)
     if ref:
         canon.expand_new_aliases(data0, set(ref.get("__aliases__", [])))
